@@ -65,6 +65,15 @@ func seqFromRecord(rec *gen.GBRecord, r *rand.Rand, cachedText bool) poly.Sequen
 	s.Sequence = rec.Seq
 	s.Meta.Locus = poly.Locus{Name: rec.Name, SequenceLength: fmt.Sprint(len(rec.Seq)), MoleculeType: rec.MolType, GenbankDivision: rec.Division,
 		ModificationDate: rec.Date, SequenceCoding: "bp", Circular: rec.Topology == "circular", Linear: rec.Topology == "linear"}
+	// an assembled record need not fill every LOCUS field
+	switch r.Intn(8) {
+	case 0:
+		s.Meta.Locus.GenbankDivision, s.Meta.Locus.ModificationDate = "", ""
+	case 1:
+		s.Meta.Locus.ModificationDate = ""
+	case 2:
+		s.Meta.Locus.GenbankDivision = ""
+	}
 	s.Meta.Definition, s.Meta.Accession, s.Meta.Version, s.Meta.Keywords = rec.Definition, rec.Accession, rec.Version, rec.Keywords
 	s.Meta.Source, s.Meta.Organism = rec.Source, rec.Organism()
 	for i, rf := range rec.Refs {
